@@ -142,7 +142,7 @@ Theorem C09_model_tree_src_nx :
     build d = Ok g -> compile d g = Ok c -> gen_routing_info sp_nx c = Ok ri -> emit c ri = Ok n -> d_algo d = SRC ->
     first_hopb sp_nx g c Req = true -> first_hopb sp_nx g c Rsp = true ->
     names_sepb g Req = true -> names_sepb g Rsp = true -> single_attachb g c = true -> links_typedb g c = true ->
-    enum_names_nodupb c = true -> tree_certb g dp = true ->
+    tree_certb g dp = true ->
     C09_on n.
 Proof. exact model_tree_C09_src_nx. Qed.
 Print Assumptions C09_model_tree_src_nx.
